@@ -399,6 +399,15 @@ Definition reply (k : cfg) (s0 : str) : res (list str * list str) :=
     | Some (m, msgs') => Ok (sent ++ [m], msgs')
     end.
 
+(* ircutils.isValidArgument / safeArgument.  repr() is CPython's: [r] is repr(s), an explicit input. *)
+Definition arg_char (c : N) : bool := negb (mem c [0; 10; 13]).
+Definition valid_arg (s : str) : bool := forallb arg_char s.
+Definition safe_arg (s r : str) : str := if valid_arg s then s else r.
+
+(* the length-checked branch of reply() starts with  s = ircutils.safeArgument(s) : everything after it
+   (measuring, truncating, wrapping, the suffixes) works on the safe text *)
+Definition reply_top (k : cfg) (s r : str) : res (list str * list str) := reply k (safe_arg s r).
+
 (* Misc.more: msgs = L[-number:]; msgs.reverse(); L[-number:] = [] *)
 Definition more (L : list str) (number : N) : list str * list str :=
   let n := N.to_nat number in
@@ -420,7 +429,7 @@ Definition truncate_msg (line : str) : str :=
 
 (* what takeMsg() hands to the driver for the command and each following more *)
 Definition session (k : cfg) (s : str) (number : N) (times : nat) : res (list (list str)) :=
-  do r <- reply k s;
+  do r <- reply k s;      (* s: the safe text, see reply_top *)
   Ok (map (map truncate_msg) (fst r :: mores_go times (snd r) number)).
 
 (* ---- `more <nick>`: another user looks at the owner's pending chunks ----
@@ -544,11 +553,11 @@ Definition gCfg (v : value) : cfg :=
    2 (words size)     -> byteTextWrap
    3 (words s length) -> wrap_w
    4 s                -> parse: (ctx, max_context_size)
-   5 (cfg s number times) -> session transcript
+   5 (cfg s number times repr(s)) -> session transcript (reply_top: safeArgument first)
    6 s                -> visible s
    7 (s length)       -> wrap with the model's own splitter
    9 (nick prefix events) -> (irc.nick, irc.prefix) after the events ((0 n u h) message, (1 n u h new) NICK)
-   8 (cfg s number ops) -> session2 transcript (ops: 0 owner's more, 1 peer's more <nick>, 2 peer's more) *)
+   8 (cfg s number ops repr(s)) -> session2 transcript (ops: 0 owner's more, 1 peer's more <nick>, 2 peer's more) *)
 Definition run (v : value) : value :=
   let p := nth_v 1 v in
   match gN (nth_v 0 v) with
@@ -558,11 +567,11 @@ Definition run (v : value) : value :=
   | 3 => vR vLS (wrap_w (gLS (nth_v 0 p)) (gS (nth_v 1 p)) (gZ (nth_v 2 p)))
   | 4 => vR (fun r => L [vCtx (fst r); vN (snd r)]) (parse (gS p))
   | 5 => vR (fun t => L (map vLS t))
-            (session (gCfg (nth_v 0 p)) (gS (nth_v 1 p)) (gN (nth_v 2 p)) (N.to_nat (gN (nth_v 3 p))))
+            (session (gCfg (nth_v 0 p)) (safe_arg (gS (nth_v 1 p)) (gS (nth_v 4 p))) (gN (nth_v 2 p)) (N.to_nat (gN (nth_v 3 p))))
   | 6 => vS (visible (gS p))
   | 7 => vR vLS (wrap (gS (nth_v 0 p)) (gZ (nth_v 1 p)))
   | 8 => vR (fun t => L (map vLS t))
-            (session2 (gCfg (nth_v 0 p)) (gS (nth_v 1 p)) (gN (nth_v 2 p))
+            (session2 (gCfg (nth_v 0 p)) (safe_arg (gS (nth_v 1 p)) (gS (nth_v 4 p))) (gN (nth_v 2 p))
                       (map (fun v => match gN v with 0 => OpOwner | 1 => OpPeerNick | _ => OpPeer end) (gL (nth_v 3 p))))
   | 9 => let st := ident_run (ID (gS (nth_v 0 p)) (gS (nth_v 1 p))) (map gEv (gL (nth_v 2 p))) in
          L [vS (i_nick st); vS (i_prefix st)]
